@@ -13,7 +13,7 @@ ASSUMPTIONS = [
     "the db is the tree's own dict; from_db is checked over the same dict and root",
 ]
 BOUNDS = {
-    "quick": "key_size 1: histories of 1 and 2 operations and one 3-operation history set;set;delete (all kind combinations, value/default length classes {blank, 2 bytes, 33 bytes}); key_size 2: 1 operation; clear-restores-root and order independence for 1-2 writes (key_size 1)",
+    "quick": "key_size 1: histories of 1 and 2 operations and two 3-operation histories set;set;delete and set;set;set (all kind combinations, value/default length classes {blank, 2 bytes, 33 bytes}); key_size 2: 1 operation; clear-restores-root and order independence for 1-2 writes (key_size 1)",
     "thorough": "key_size 1: <= 3 operations; key_size 2: <= 2 operations (key_size 4 was tried: z3 does not answer a 1-operation history within 15 min, so it is not run)",
 }
 OUTSIDE = "key sizes 3..32 (same loop bodies, larger unrolling), longer histories, 64-byte values, databases shared with other users"
@@ -38,6 +38,7 @@ def obligations(tier):
         hist(2, 1, (0, 2), (2,))
         # one targeted 3-operation history: two writes (the solver may make keys and values coincide) and a delete
         add(main, "h_smt", "b_smt", ks=1, dshape=0, vshapes=[2, 2, 0], kinds=[False, False, True], t=3000)
+        add(main, "h_smt", "b_smt", ks=1, dshape=0, vshapes=[2, 2, 2], kinds=[False, False, False], t=3000)
         for d in (0, 2):
             for vs in ([2], [2, 33], [0, 2]):
                 add("clearing restores the initial root; write order does not matter", "h_smt_clear", "b_smt_clear", ks=1, dshape=d, vshapes=vs)
